@@ -114,7 +114,30 @@ def merge(outs):
                 m["inconclusive"].append(r)
         for k, v in o.get("sets", {}).items():
             m["sets"].setdefault(k, set()).update(json.dumps(x, sort_keys=True) for x in v)
+        for fn, lines in (o.get("linecov") or {}).items():
+            m.setdefault("linecov", {}).setdefault(fn, set()).update(lines)
     return m
+
+
+def anchored_reach(prop, hits):
+    """{anchored file: {reached, of}}: executable lines inside functions of the files the property is anchored in
+    that this run executed (measured in the workers by sys.monitoring)"""
+    from harness import linecov
+
+    out = {}
+    try:
+        with open(os.path.join(VERIF, "properties.jsonl")) as f:
+            props = {json.loads(l)["id"]: json.loads(l) for l in f if l.strip()}
+        for rel in props[prop]["anchors"]["files"]:
+            path = os.path.join(REPO, rel)
+            if not os.path.isfile(path):
+                continue
+            ex = linecov.executable_lines(path)
+            got = hits.get(rel, set())
+            out[rel] = {"reached": sum(1 for l in ex if l in got), "of": len(ex)}
+    except Exception as e:  # diagnostic only
+        return {"error": repr(e)}
+    return out
 
 
 def main(argv=None):
@@ -216,6 +239,7 @@ def main(argv=None):
         }
         if getattr(mod, "EXHAUSTIVE", None):
             ev["coverage"]["exhaustive_subspaces"] = mod.EXHAUSTIVE
+        ev["coverage"]["anchored_code_reach"] = anchored_reach(prop, m["linecov"]) if m.get("linecov") else "not measured (workers run on Python 3.11, no sys.monitoring)"
         os.makedirs(os.path.join(VERIF, "evidence"), exist_ok=True)
         with open(os.path.join(VERIF, "evidence", prop + ".json"), "w") as f:
             json.dump(ev, f, indent=1, default=repr)
